@@ -988,6 +988,14 @@ impl C23 {
                     }
                 }
             }
+            // not in the operand-type-matrix worlds: their cells include the trigger of known finding F-5 (an
+            // ordering filter on a list-typed property panics); a count filter `>= 0` on a fold with nothing
+            // observed inside lets the engine skip the fold's contents, so the engine answers with rows where
+            // the specification (which materialises the fold) reports the F-5 panic - a consequence of F-5,
+            // not a transformation failure (seen once in the thorough tier, DESIGN §14)
+            if base.gq.features.contains(engine::operand_matrix::FEATURE) {
+                cands.clear();
+            }
             if let Some(i) = pick(rng, cands.len()) {
                 c.bump("add-count-filter", 0);
                 let (s, j) = &cands[i];
